@@ -281,8 +281,9 @@ theorem compactWith_expect (K : Bytes → Bool) (s : NvStore) (hwf : WFParts s) 
   simp only [hbufs, entriesLen_ser]
   have hlen0 : (invalK K (expectStore s)).length = s.ser.length := rfl
   simp only [hlen0]
-  have hnp : ¬ (s.ser.length < 16 * (compactG K s).guids.length + entriesLen (compactG K s).entries) := by omega
-  simp only [hnp, if_false]
+  have hnp : ¬ (s.ser.length < 16 * (compactG K s).guids.length) := by omega
+  have hnp' : ¬ (s.ser.length - 16 * (compactG K s).guids.length < entriesLen (compactG K s).entries) := by omega
+  simp only [hnp, hnp', if_false]
   have hfree : s.ser.length - 16 * (compactG K s).guids.length - entriesLen (compactG K s).entries
       = (compactG K s).free := by
     simp only [compactG]; omega
